@@ -5,6 +5,7 @@
  */
 
 #include <inttypes.h>
+#include <atomic>
 #include <iostream>
 #include "nfl/prng/crypto_stream_salsa20.h"
 #include "nfl/prng/randombytes.h"
@@ -14,22 +15,25 @@ namespace nfl {
 static size_t constexpr crypto_stream_salsa20_KEYBYTES = 32;
 static size_t constexpr crypto_stream_salsa20_NONCEBYTES = 8;
 
-static int init = 0;
 static unsigned char key[crypto_stream_salsa20_KEYBYTES];
-static unsigned char nonce[crypto_stream_salsa20_NONCEBYTES] = {0};
+static std::atomic<unsigned long long> nonce_counter(0);
+
+static bool seed_key() {
+  randombytes(key, crypto_stream_salsa20_KEYBYTES);
+  return true;
+}
 
 void fastrandombytes(unsigned char *r, unsigned long long rlen) {
-  unsigned long long n = 0;
+  unsigned char nonce[crypto_stream_salsa20_NONCEBYTES];
   int i;
-  if (!init) {
-    randombytes(key, crypto_stream_salsa20_KEYBYTES);
-    init = 1;
-  }
-  nfl_crypto_stream_salsa20_amd64_xmm6(r, rlen, nonce, key);
+  // The key is drawn exactly once, even when several threads make the first call
+  static const bool seeded = seed_key();
+  (void)seeded;
 
-  // Increase 64-bit counter (nonce)
-  for (i = 0; i < crypto_stream_salsa20_NONCEBYTES; i++) n ^= ((unsigned long long)nonce[i]) << 8 * i;
-  n++;
+  // Every request takes its own value of the 64-bit counter (nonce)
+  unsigned long long n = nonce_counter.fetch_add(1);
   for (i = 0; i < crypto_stream_salsa20_NONCEBYTES; i++) nonce[i] = (n >> 8 * i) & 0xff;
+
+  nfl_crypto_stream_salsa20_amd64_xmm6(r, rlen, nonce, key);
 }
 }
